@@ -928,4 +928,13 @@ def seqModel {α} [DecidableEq α] (root : String) (steps : List (String × α))
   -- `raise TypeError('can only check if Path starts with string, Path or T')`
   | .startswithBad => .typeError
 
+/-- pickling / deep-copying the result of a sequence operation: a Path result pickles its `path_t`
+    (`TType.__getstate__` / `__setstate__`: the root by name, the steps as they are — whether the root
+    object is the singleton or a copy `Path.__getitem__` / `from_t` made plays no part); lengths, truth
+    values and tuples of arguments are pickled by CPython -/
+def pickleRes {α} (getRoots setRoots : List String) : SeqRes α → SeqRes α
+  | .path r st =>
+    if getRoots.contains r && setRoots.contains r then .path r st else .other "KeyError"
+  | res => res
+
 end Glom.C18
